@@ -366,6 +366,15 @@ func runC12(c *Ctx, r *Report, tier string) {
 	}
 	var rets []string
 	for _, ret := range returnsOf(oin) {
+		// a loop over a constant key table {"_read-ini-name", "ini-name"} is the same cascade
+		if call, ok := c.resolve(ret.Results[0]).(*ssa.Call); ok && c.calleeName(call.Common()) == "(*multiTag).Get" && c.term(call.Call.Args[0]) == "&Option.tag(P0)" {
+			if elems, ok := constArrayElems(c, call.Call.Args[1]); ok && len(elems) == 2 && elems[0] == `"_read-ini-name"` && elems[1] == `"ini-name"` {
+				for _, e := range elems {
+					rets = append(rets, "call:(*multiTag).Get(&Option.tag(P0), "+e+")")
+				}
+				continue
+			}
+		}
 		rets = append(rets, c.term(ret.Results[0]))
 	}
 	sort.Strings(rets)
@@ -401,4 +410,57 @@ func runC12(c *Ctx, r *Report, tier string) {
 		}
 	}
 	r.Check(okL, "LINES", c.fname(rfl), "chunks are copied into the accumulated line", c.pos(rfl.Pos()), "line = append(line, chunk...) on every back edge (a chunk is valid only until the next ReadLine)", "a chunk of a long line is kept by reference")
+}
+
+// constArrayElems: v is an element (at a loop index) of a local array literal all of whose elements are
+// constants: the constants in index order.
+func constArrayElems(c *Ctx, v ssa.Value) ([]string, bool) {
+	u, ok := v.(*ssa.UnOp)
+	if !ok {
+		return nil, false
+	}
+	ia, ok := u.X.(*ssa.IndexAddr)
+	if !ok {
+		return nil, false
+	}
+	base := ia.X
+	if sl, ok := base.(*ssa.Slice); ok {
+		base = sl.X
+	}
+	al, ok := base.(*ssa.Alloc)
+	if !ok || al.Referrers() == nil {
+		return nil, false
+	}
+	elems := map[int64]string{}
+	for _, ref := range *al.Referrers() {
+		switch x := ref.(type) {
+		case *ssa.IndexAddr:
+			k, isC := constInt(x.Index)
+			if !isC || x.Referrers() == nil {
+				return nil, false
+			}
+			for _, r2 := range *x.Referrers() {
+				st, ok := r2.(*ssa.Store)
+				if !ok {
+					return nil, false
+				}
+				if _, isConst := st.Val.(*ssa.Const); !isConst {
+					return nil, false
+				}
+				elems[k] = c.term(st.Val)
+			}
+		case *ssa.Slice, *ssa.DebugRef:
+		default:
+			return nil, false
+		}
+	}
+	var out []string
+	for i := int64(0); i < int64(len(elems)); i++ {
+		e, ok := elems[i]
+		if !ok {
+			return nil, false
+		}
+		out = append(out, e)
+	}
+	return out, len(out) > 0
 }
